@@ -8,6 +8,7 @@ import (
 	"fmt"
 	"sort"
 	"strings"
+	"time"
 
 	"reduction.dev/reduction/batching"
 	"reduction.dev/reduction/clocks"
@@ -34,7 +35,7 @@ type params struct {
 }
 
 func Run(k *report.Check) {
-	k.Rule = "one real Operator (event batch size 1 or 2), R sender threads (source runners) that each play a script through HandleEvent sequentially; scripts enumerated: 0-2 keyed events before each barrier (keys collide across senders), 0-1 after, optional pre-barrier watermark, one timer-setting event, one or two consecutive checkpoints (separate parts: three, thorough also four, with fixed scripts); every schedule of the sender threads, the operator's event loop and the (slow) handler within the delay bound. For every OperatorCheckpointComplete(N): the events applied so far are exactly the events every sender delivered before its barrier N, no timer fired that only post-barrier watermarks justify, the DKV checkpoint reported for N (opened afterwards with a fresh database) holds exactly that state, no deadlock. non-trivial = distinct (scripts, schedule cost) executions in which a sender had passed its barrier while another sender's pre-barrier event was still to be applied"
+	k.Rule = "one real Operator (event batch size 1 or 2), R sender threads (source runners) that each play a script through HandleEvent sequentially; scripts enumerated: 0-2 keyed events before each barrier (keys collide across senders), 0-1 after, optional pre-barrier watermark, one timer-setting event, one or two consecutive checkpoints (separate parts: three, thorough also four, with fixed scripts); every schedule of the sender threads, the operator's event loop and the (slow) handler within the delay bound. For every OperatorCheckpointComplete(N): the events applied so far are exactly the events every sender delivered before its barrier N, no timer fired that only post-barrier watermarks justify and every registered timer that the senders' pre-barrier watermarks make due has fired (once), the DKV checkpoint reported for N (opened afterwards with a fresh database) holds exactly that state, no deadlock. non-trivial = distinct (scripts, schedule cost) executions in which a sender had passed its barrier while another sender's pre-barrier event was still to be applied"
 	k.Assumptions = []string{"scheduling points at synchronisation operations (sequentially consistent)", "large memtable: the database's background work is C07/C08's subject"}
 	k.Budget(120, 1200)
 	k.Parts(k.Pick(4, 5))
@@ -292,6 +293,32 @@ func body(c *mc.Ctx) {
 			fmt.Sscanf(t, "timer@%d", &secs)
 			if secs > minWM {
 				c.FailSig("timer-fired-on-post-barrier-watermark", "timer %s fired before checkpoint %d although the senders' pre-barrier watermarks only reach %d", t, n, minWM)
+			}
+		}
+		// the converse: a timer that was registered (its event was applied while the handler was
+		// told a watermark below the timer) and that the senders' pre-barrier watermarks make due
+		// belongs to the cut - the operator's event loop is sequential, every pre-barrier
+		// watermark is handled before its sender's barrier, and the last barrier flushes the batch
+		for _, a := range h.Applied[:comp.AppliedCount] {
+			var secs int64
+			if a.Timer || !strings.HasPrefix(a.ID, "T") {
+				continue
+			}
+			fmt.Sscanf(a.ID, "T%d:", &secs)
+			if a.WM >= time.Unix(secs, 0).UnixNano() || secs > minWM {
+				continue
+			}
+			fired := 0
+			for _, t := range timersFired {
+				if t == fmt.Sprintf("timer@%d", secs) {
+					fired++
+				}
+			}
+			if fired == 0 {
+				c.FailSig("due-timer-not-in-the-cut", "checkpoint %d was reported although the timer at %ds set by %s (handler was told watermark %v) had not fired: every sender's pre-barrier watermark reaches %d", n, secs, a.ID, time.Unix(0, a.WM).UTC().Format("15:04:05"), minWM)
+			}
+			if fired > 1 {
+				c.FailSig("timer-fired-twice", "the timer at %ds set by %s fired %d times before checkpoint %d", secs, a.ID, fired, n)
 			}
 		}
 		// the reported DKV checkpoint, opened with a fresh database, holds exactly that state
